@@ -49,6 +49,14 @@ CHECKS = {
              "user-controlled slots of both generators; a removed or quote-less escape, a new raw field or an unquoted attribute is reported with file:line and the value's origin.",
         ref="DESIGN 3/C19",
         note=TB + "; html.escape(quote=True) neutralises & < > \" '; scope = text arriving through the CLI and save_report (internal builders called with forged level strings are out of scope)"),
+    "C14": dict(
+        technique="static exception-escape analysis: syntax-directed abstract interpretation over abstract types (isinstance/None/length/membership narrowing, context-sensitive callees, try/except class filtering) + None-guard typestate on .rgb (guard-literal dataflow)",
+        category="other",
+        text="Analyses the constructors once for the property's whole input domain (str, or list/tuple of int/float/bool/str/None of any length): every operation that can raise for "
+             "some abstract operand contributes its exception class and the obligation is that no class escapes the constructor's handler; plus: .rgb is dereferenced only under "
+             "is_valid, invalid pairs short-circuit to the documented constants. Re-derived the genuine defect F-C14 (TypeError out of Color((None,)*4)), now fixed in /repo.",
+        ref="DESIGN 3/C14, 4/F-C14",
+        note=TB + "; builtin semantics table of sa/exc.py; numeric-domain exceptions (OverflowError, ZeroDivisionError), RecursionError, MemoryError out of scope; nested sequences as elements are outside the property's domain"),
 }
 
 NOT_APPLICABLE = {
@@ -85,6 +93,7 @@ def main():
             "enable": "no hooks: every check is a static analysis of /repo/src/cm_colors read with ast; nothing of the repository is built, imported or executed",
             "baseline_off_cmd": "cd /repo && /venv/bin/python -m pytest -q -p no:cacheprovider --timeout=900",
             "source_commits": [],
+            "fix_commits": ["133000f fix: hsla_to_rgb tuple branch raises ValueError (not TypeError) for non-numeric components"],
             "add_only": True,
         },
         "engines": [{
